@@ -214,4 +214,43 @@ PROPS = {
         "assumptions": ["documented domain: finite values, AGC min <= max, rate >= 8000; DC-blocker length <= 100 symbols and rate <= 192000 to bound memory/time"],
         "spec_ops": {"spec.c17.run": "cfg.run"},
     },
+    "C11": {
+        "thm": "SameVerif.Thm.C11",
+        "suites": ["app"],
+        "needs_samedec": True,
+        "spec_filter": r"^spec\.(c11|c17\.opts) ",
+        "technique": "Lean 4 theorems on the Waiting/Alerting state-machine model for EVERY receiver message trace and every child oracle (printed = library messages then flushed messages, in order; nothing when quiet) + the real samedec binary on synthesized recordings against the in-process library reference and the model",
+        "level_text": "Proved in Lean for every input (message trace with sample positions + flushed messages), every spawn oracle, child configured or not: the printed sequence is exactly the messages decoded while input lasts followed by those completed by flush at end of input, one per message, in order; --quiet prints nothing; the fuel of the model is never exhausted (equality with a fuel-free walk). By C13 the message trace does not depend on how app.rs re-binds iterators. "
+                      "Tie: the built samedec binary (from the working tree) is run on synthesized recordings - 0..4 transmissions, lossy or not, close-cut or padded, odd trailing byte, 6 rates, file and stdin input, -v levels, --quiet, with and without a recorder child - and its stdout, exit status and recorded children must equal the Lean model's prediction computed from the in-process library reference (same builder settings as main.rs); the C11 oracle compares stdout with the library messages directly. The documented special option values (e.g. --dc-blocker-len 0) must not abort the program.",
+        "level_note": "clap argument parsing, the logger's stream, process I/O are observed, not modelled. --demo mode is out of scope.",
+        "rule": "app: 28 (quick) / 400 (thorough) runs: recording shape x rate x quiet x child x verbosity x file/stdin, plus 9 option-value runs. Non-trivial = every run; distinct by request text.",
+        "exhaustive": False,
+        "assumptions": ["OS: process spawn, pipes and wait behave as documented"],
+    },
+    "C12": {
+        "thm": "SameVerif.Thm.C12",
+        "suites": ["app"],
+        "needs_samedec": True,
+        "spec_filter": r"^spec\.c12 ",
+        "technique": "Lean 4 theorems on the app model (exactly one child per StartOfMessage; the k-th child's stdin is the half-open sample range from its header's position to the next message's position or end of input; ranges in bounds, ordered, non-overlapping; one spawn attempt per StartOfMessage) + recorder child dumping environment and stdin, compared byte for byte, + Lean oracle restating the environment from the header model",
+        "level_text": "Proved in Lean for every message trace: with a child configured and spawns succeeding the children are exactly expectedChildren (one per StartOfMessage, in order, each fed samples [position of its header, position of the next message or end of input)); for ANY oracle the children are a sublist of that specification (a failed spawn removes only that child), every StartOfMessage gets exactly one spawn attempt, ranges are within the input, ordered and non-overlapping; no child and no attempt without configuration. "
+                      "Tie: a recorder child dumps SAMEDEC_* and its stdin for every spawn; the harness checks the stdin bytes equal the exact input slice and the Lean oracle re-derives every variable from the header text with the C06/C16/C15 models: MSG, RATE, ORG, ORIGINATOR, EVT, EVENT, SIGNIFICANCE, SIG_NUM, LOCATIONS (space-separated), IS_NATIONAL, and PURGETIME - ISSUETIME = validity duration.",
+        "level_note": "Utc::now() is the receive time used for ISSUETIME: only the difference PURGETIME - ISSUETIME is judged. OS pipe/spawn/wait are assumed.",
+        "rule": "app: the runs with a child (half of all runs): recordings with 1..3 messages incl. header directly after header and missing trailers, all grammar-generated headers. Non-trivial = every run.",
+        "exhaustive": False,
+        "assumptions": ["OS: a pipe delivers the bytes written, in order; wait() returns after the child exits"],
+    },
+    "C19": {
+        "thm": "SameVerif.Thm.C19",
+        "suites": ["appfault"],
+        "needs_samedec": True,
+        "spec_filter": r"^spec\.c19 ",
+        "technique": "Lean 4 theorem that the printed sequence of the app model is independent of the child-behaviour oracle (and equals the reference), with model-level termination + fault-injecting children (missing, non-executable, exit 0/1, close stdin and linger, partial read, slow reader, killed) assigned to each message of real runs",
+        "level_text": "Proved in Lean: for every message trace and ANY two child oracles the printed sequences coincide and (when not quiet) equal the library's messages, every message printed exactly once; the state machine's recursion is bounded by the number of messages. "
+                      "Fault enumeration on the real binary: for recordings with 1..3 messages every behaviour from {missing executable, non-executable file, exit 0 at once, exit 1 at once, close stdin then linger, read partially then exit, slow reader, killed by SIGKILL} is assigned to each message position (quick: each once per position; thorough: all 8^n for n <= 2 plus random assignments); stdout must equal the run without a child, exit status 0, wall clock < 30 s.",
+        "level_note": "That a write to a closed pipe returns EPIPE instead of killing the process (Rust ignores SIGPIPE) and that wait() returns once the child has exited are OS axioms; they are exactly what the fault runs exercise.",
+        "rule": "appfault: (recording with n messages) x (assignment of behaviours). Non-trivial = every run; evaluations counts runs.",
+        "exhaustive": False,
+        "assumptions": ["OS: EPIPE on write to a closed pipe with SIGPIPE ignored; wait() returns after exit"],
+    },
 }
